@@ -321,6 +321,33 @@ def late_merge_k(n, k, seed):
     return A
 
 
+def diamond_chain(k, directed=False):
+    """k diamonds in a row: 3k+1 nodes, 2**k equally short paths between the end nodes"""
+    n = 3 * k + 1
+    A = np.zeros((n, n))
+    for d in range(k):
+        a, u, v, b = 3 * d, 3 * d + 1, 3 * d + 2, 3 * d + 3
+        for x, y in ((a, u), (a, v), (u, b), (v, b)):
+            A[x, y] = 1
+            if not directed:
+                A[y, x] = 1
+    return A
+
+
+def layered(sizes, directed=False):
+    """complete connections between consecutive layers: prod(sizes[1:-1]) equally short end-to-end paths"""
+    n = sum(sizes)
+    A = np.zeros((n, n))
+    off = np.cumsum([0] + list(sizes))
+    for l in range(len(sizes) - 1):
+        for x in range(off[l], off[l + 1]):
+            for y in range(off[l + 1], off[l + 2]):
+                A[x, y] = 1
+                if not directed:
+                    A[y, x] = 1
+    return A
+
+
 def late_hub_tree(n, seed):
     """labelled tree aimed at late multi-way merges of a row-major scan: low-numbered leaves hang on
     high-numbered nodes, which are tied together through a few mid-numbered hubs."""
@@ -350,7 +377,7 @@ NAMED = {
     'lollipop': lollipop, 'dcycle': dcycle, 'dcycle_chords': dcycle_chords, 'dag': dag,
     'tournament': tournament, 'two_blobs_dir': two_blobs_dir, 'oneway_bridge': oneway_bridge,
     'er_connected': er_connected, 'er_strong': er_strong, 'planted': planted, 'late_merge': late_merge,
-    'late_merge_k': late_merge_k, 'late_hub_tree': late_hub_tree,
+    'late_merge_k': late_merge_k, 'late_hub_tree': late_hub_tree, 'diamond_chain': diamond_chain, 'layered': layered,
 }
 
 
@@ -397,6 +424,8 @@ def weigh(A, scheme, seed, symmetric):
         Wt = rs.randint(1, 4, size=(n, n)).astype(float)
     elif scheme == 'dyad':
         Wt = rs.randint(1, 9, size=(n, n)) / 8.0
+    elif scheme == 'logu':      # lengths over 12 orders of magnitude (absolute tolerances are meaningless here)
+        Wt = 10.0 ** rs.uniform(-12, 0, size=(n, n))
     elif scheme == 'decimal':   # k/10: equal real lengths whose float sums differ in the last bit (rounding-level ties)
         Wt = rs.randint(1, 10, size=(n, n)) / 10.0
     elif scheme == 'neartie':   # exactly representable lengths that differ by ~1e-6: near-ties that are not ties
@@ -463,6 +492,18 @@ def structured_und(nmax, seeds=(0,)):
         out.append(['iso', ['named', 'star', 5], 3])
     if nmax >= 10:
         out.append(['disjoint', ['named', 'kab', 2, 3], ['named', 'kab', 2, 3]])
+    return out
+
+
+def many_paths(nmax):
+    """graphs with 2**8 .. 2**32 equally short paths between two nodes (counter overflow / precision traps)"""
+    out = []
+    for k in (8, 9, 16, 17, 32, 64):
+        if 3 * k + 1 <= nmax:
+            out += [['named', 'diamond_chain', k, False], ['named', 'diamond_chain', k, True]]
+    for sizes in ([1, 16, 16, 1], [1, 4, 4, 4, 4, 1], [1, 2, 8, 16, 1], [1, 16, 16, 16, 16, 1], [1] + [2] * 32 + [1], [1] + [2] * 64 + [1]):
+        if sum(sizes) <= nmax:
+            out += [['named', 'layered', sizes, False], ['named', 'layered', sizes, True]]
     return out
 
 
